@@ -713,6 +713,10 @@ def analyse(chk):
     chk.rule("singular-override", "no output carries a singular factor after the masked override that repairs it")
     chk.guard(rule_clamp_zero, prog)
     chk.guard(rule_cutoff_pair, prog)
+    chk.rule("stale-loop-var", "mapped-kernel classes: no `for` target is read after its loop has ended (a zeroing "
+                               "store dedented out of the per-spin loop zeroes the last channel only)")
+    chk.guard(lambda c_: er.check_stale_loop_vars(c_, prog, ((XE, "MappedDFTKernel"), (XE2, "MappedDFTKernel2"))))
+    chk.floor("stale-loop-var", 4, "methods with loops in MappedDFTKernel{,2} and their bases")
     chk.guard(rule_guarded_den, prog)
     chk.rule("index-clip", "cider_ind_clip stores an index within [0, size) on every path (clang AST)")
     chk.guard(rule_index_clip, tree)
@@ -827,6 +831,10 @@ def mutants(tree):
                "            if self.mode == \"SEP\":\n                f[cond] = 0.0\n                df[cond] = 0.0\n",
                "            if self.mode == \"SEP\":\n                tot = rho_tuple[0].sum(0) < rhocut\n                f[:, tot] = 0.0\n                df[:, tot] = 0.0\n",
                expect="cutoff-pair"),
+        Mutant("v1 SEP: derivative zeroing dedented out of the spin loop", XE,
+               "                    res[s][cond[s]] = 0.0\n                    dres[s][:, cond[s]] = 0.0\n",
+               "                    res[s][cond[s]] = 0.0\n                dres[s][:, cond[s]] = 0.0\n",
+               expect="stale-loop-var"),
         Mutant("zero only res under rhocut", XE, "                res[..., cond] = 0.0\n                dres[..., cond] = 0.0\n",
                "                res[..., cond] = 0.0\n", expect="cutoff-pair"),
         Mutant("zero only f under rhocut (v2 SEP)", XE2, "                f[cond] = 0.0\n                df[cond] = 0.0\n", "                f[cond] = 0.0\n",
